@@ -386,6 +386,8 @@ void encode_imm(struct instr *instrc) {
   // register (its base register says nothing about the operand size)
   if (instrc->mem_disp && instrc->keyword.is_word)
     opd0_mode = reg16;
+  else if (instrc->mem_disp && (instrc->opd[0].reg & reg_none))
+    opd0_mode = reg64; // no base register: nothing to derive a size from
   // mask all bits except for the most significant byte
   if (opd0_mode < reg32) {
     DO_NOT_PAD(instrc->cons, instrc->reduced_imm, MAX_UNSIGNED_16BIT);
